@@ -87,12 +87,22 @@ def hook_lines(tools, hook, lines, release=False, shards=16):
     n = max(1, min(shards, (len(lines) + 199) // 200))
     size = (len(lines) + n - 1) // n
     chunks = [lines[i:i + size] for i in range(0, len(lines), size)]
-    def work(chunk):
-        p = subprocess.run([binp], input=('\n'.join(chunk) + '\n').encode(), capture_output=True, env=dict(os.environ, RBP_VERIF_HOOK=hook), timeout=1200)
+    def one_process(reqs):
+        p = subprocess.run([binp], input=('\n'.join(reqs) + '\n').encode(), capture_output=True, env=dict(os.environ, RBP_VERIF_HOOK=hook, RAYON_NUM_THREADS='2'), timeout=1200)
         out = p.stdout.decode(errors='replace').split('\n')
         if out and out[-1] == '': out.pop()
-        if len(out) != len(chunk): raise RuntimeError('hook %s answered %d lines for %d requests (rc %s) %s' % (hook, len(out), len(chunk), p.returncode, p.stderr.decode(errors='replace')[:300]))
-        return out
+        return p, out
+    def work(chunk):
+        p, out = one_process(chunk)
+        if len(out) == len(chunk): return out
+        if p.returncode == 0: raise RuntimeError('hook %s answered %d lines for %d requests although it exited 0' % (hook, len(out), len(chunk)))
+        # the process died on some request (an abort that catch_unwind cannot intercept, e.g. allocation failure); its buffered answers are lost:
+        # answer this chunk one request per process
+        res = []
+        for q in chunk:
+            p1, o1 = one_process([q])
+            res.append(o1[0] if len(o1) == 1 else 'ABORT|rc=%s %s' % (p1.returncode, p1.stderr.decode(errors='replace')[:160].replace('\n', ' ')))
+        return res
     res = []
     with ThreadPoolExecutor(n) as ex:
         for out in ex.map(work, chunks): res += out
@@ -120,7 +130,7 @@ def run_impl(tools, case, cb, datadir=None, outdir=None, release=False, env=None
     binp = tools.bin_release if release else tools.bin
     args = [binp, '-d', datadir] + ['-v'] * verbosity + case.args() + [SUBCMD[cb]] + ([outdir] if cb in NEEDS_DIR else [])
     if wrapper: args = wrapper + args
-    e = dict(os.environ); e.pop('RBP_VERIF_HOOK', None); e.update(env or {})
+    e = dict(os.environ); e.pop('RBP_VERIF_HOOK', None); e.setdefault('RAYON_NUM_THREADS', '4'); e.update(env or {})      # many runs in parallel: keep the thread count per process small (C13 varies it explicitly)
     t0 = time.time()
     try:
         p = subprocess.run(args, capture_output=True, env=e, preexec_fn=preexec, timeout=timeout)
